@@ -33,7 +33,145 @@ func mcastSourceIP() string {
 	return "127.0.0.1"
 }
 
+// runMcastPkt: the datagram part of the scripts on a sonic.PacketConn (packet.go) instead of the multicast peer: the same
+// observations (one datagram per completed read, truncated to the buffer's LENGTH - the buffers have spare capacity -, its
+// source, one datagram per write).
+func runMcastPkt(c *Case) []string {
+	ioc := sonic.MustIO()
+	defer ioc.Close()
+	pc, err := sonic.NewPacketConn(ioc, "udp", "127.0.0.1:0")
+	if err != nil {
+		panic(err)
+	}
+	defer pc.Close()
+	sa, err := syscall.Getsockname(pc.RawFd())
+	if err != nil {
+		panic(err)
+	}
+	port := sa.(*syscall.SockaddrInet4).Port
+	senders := map[int]*net.UDPConn{}
+	sender := func(k int) *net.UDPConn {
+		if s, ok := senders[k]; ok {
+			return s
+		}
+		s, err := net.ListenUDP("udp", &net.UDPAddr{IP: net.IPv4(127, 0, 0, 1)})
+		if err != nil {
+			panic(err)
+		}
+		senders[k] = s
+		return s
+	}
+	defer func() {
+		for _, s := range senders {
+			_ = s.Close()
+		}
+	}()
+	srcID := func(a net.Addr) int {
+		// the packet conn reports the source as whatever net.Addr its converter builds (a *net.TCPAddr today): the address
+		// and port are what matters
+		p := -1
+		switch x := a.(type) {
+		case *net.UDPAddr:
+			if x != nil {
+				p = x.Port
+			}
+		case *net.TCPAddr:
+			if x != nil && x.IP.Equal(net.IPv4(127, 0, 0, 1)) {
+				p = x.Port
+			}
+		}
+		for k, s := range senders {
+			if s.LocalAddr().(*net.UDPAddr).Port == p {
+				return k
+			}
+		}
+		return -1
+	}
+	pat := func(seed, n int) []byte {
+		b := make([]byte, n)
+		for i := range b {
+			b[i] = byte(seed + i*3 + i/200)
+		}
+		return b
+	}
+	var events []string
+	tail := func(extra string) string {
+		e := strings.Join(events, " ")
+		events = nil
+		if e == "" {
+			e = "-"
+		}
+		return e + extra
+	}
+	return runOps(c, func(op string, a []string) string {
+		switch op {
+		case "arrive":
+			k, n, seed := atoi(a[0]), atoi(a[1]), atoi(a[2])
+			if _, err := sender(k).WriteToUDP(pat(seed, n), &net.UDPAddr{IP: net.IPv4(127, 0, 0, 1), Port: port}); err != nil {
+				panic(err)
+			}
+			time.Sleep(time.Millisecond)
+			return tail("")
+		case "aread":
+			n, cb := atoi(a[0]), a[1]
+			b := make([]byte, n+64) // the read gets b[:n]: the spare capacity behind it must stay untouched
+			for i := range b {
+				b[i] = 0xEE
+			}
+			pc.AsyncReadFrom(b[:n], func(err error, got int, from net.Addr) {
+				where := 1
+				for _, x := range b[n:] {
+					if x != 0xEE {
+						where = 0
+					}
+				}
+				shown := got
+				if shown > len(b) {
+					shown = len(b)
+				}
+				if shown < 0 {
+					shown = 0
+				}
+				events = append(events, fmt.Sprintf("R%s:%d:%d:%d:%s:latest=%d", cb, loopErrClass(err), got, srcID(from), bytesRepr(b[:shown]), where))
+			})
+			return tail("")
+		case "poll":
+			_, _ = ioc.PollOne()
+			return tail("")
+		case "write":
+			k, n, seed := atoi(a[0]), atoi(a[1]), atoi(a[2])
+			dst := sender(k).LocalAddr().(*net.UDPAddr)
+			pc.AsyncWriteTo(pat(seed, n), dst, func(err error) {
+				put := n
+				if err != nil {
+					put = 0
+				}
+				events = append(events, fmt.Sprintf("W:%d:%d", loopErrClass(err), put))
+			})
+			buf := make([]byte, 70000)
+			var got []string
+			for {
+				_ = sender(k).SetReadDeadline(time.Now().Add(3 * time.Millisecond))
+				m, from, err := sender(k).ReadFromUDP(buf)
+				if err != nil {
+					break
+				}
+				ok := 0
+				if from.Port == port {
+					ok = 1
+				}
+				got = append(got, fmt.Sprintf("S%d:%s:from=%d", k, bytesRepr(buf[:m]), ok))
+			}
+			return tail(" " + strings.Join(got, " "))
+		}
+		panic("unknown op " + op)
+	})
+}
+
 func runMcast(c *Case) []string {
+	if c.Params["mode"] == "pkt" {
+		return runMcastPkt(c)
+	}
 	ioc := sonic.MustIO()
 	defer ioc.Close()
 	bind := "127.0.0.1:0"
